@@ -534,7 +534,10 @@ def text_encodings(jwk):
 
 PREAMBLES = (("leading-newline", b"\n"), ("leading-space", b"  "), ("leading-crlf-tab", b"\r\n\t"), ("utf8-bom", b"\xef\xbb\xbf"),
              ("bag-attributes-preamble", b"Bag Attributes\n    localKeyID: 01\nKey Attributes: <No Attributes>\n"), ("comment-line-preamble", b"# signing key of the api\n"),
-             ("subject-line-preamble", b"subject=/CN=example\nissuer=/CN=ca\n"), ("text-dump-preamble", b"Public-Key: (256 bit)\npub:\n    04:aa:bb\n"))
+             ("subject-line-preamble", b"subject=/CN=example\nissuer=/CN=ca\n"), ("text-dump-preamble", b"Public-Key: (256 bit)\npub:\n    04:aa:bb\n"),
+             # the text dump of a real key is long: openssl rsa -text writes some 3 KiB in front of the armor, a chain with comments more
+             ("long-text-dump-preamble", b"Private-Key: (2048 bit, 2 primes)\nmodulus:\n" + b"    00:c3:5a:9f:12:7e:aa:bb:cc:dd:ee:ff:01:23:45:\n" * 70 + b"publicExponent: 65537 (0x10001)\n"),
+             ("64k-comment-preamble", b"# " + b"x" * 65536 + b"\n"))
 WHITE_PREAMBLES = ("leading-newline", "leading-space", "leading-crlf-tab", "utf8-bom")
 
 
